@@ -72,12 +72,12 @@ func setup(n int) *world {
 	return w
 }
 
-// maxStored: the number of stored consensus states is bounded by 2 (quick) or 3 (thorough).
+// maxStored: the number of stored consensus states is bounded by 3 (quick) or 4 (thorough).
 func maxStored() int {
 	if verif.Thorough() {
-		return 3
+		return 4
 	}
-	return 2
+	return 3
 }
 
 func same(a, b *ibctm.ConsensusState) bool {
